@@ -1,6 +1,539 @@
-//! C17 — not built yet.
-use crate::rt::*;
+//! C17 — shared decryptor, key generator, evaluator behave as if calls ran one at a time.
+//! (A) controlled schedules: a scheduler installed on the library's feature-guarded yield
+//!     points (placed where no lock is held) runs exactly one thread at a time and enumerates
+//!     interleavings (all for 2 threads; bounded DFS + seeded random for 3-4 threads);
+//! (B) stress: real parallelism with random micro-delays injected at the same hook sites;
+//! (C) sanitizers: the stress workload again in a ThreadSanitizer build (and a tiny scenario
+//!     under Miri in the thorough tier), driven as subprocesses.
+//! Oracle: every concurrent result equals the sequential bytes; caches only grow and end at
+//! the maximum requested; no panic (poisoned lock included), no deadlock, no sanitizer report.
 
-pub fn run(_cfg: &Cfg, _rep: &mut Report) -> PropMeta {
-    PropMeta { id: "C17", level: "exploration", rule: "not built", assumptions: vec![], exhaustive: false, floor: 1 }
+use crate::he::*;
+use crate::props::c06::same_ct;
+use crate::rt::*;
+use heathcliff::*;
+use serde_json::json;
+use std::cell::Cell;
+use std::collections::HashSet;
+use std::sync::atomic::{AtomicU64, Ordering};
+use std::sync::{Arc, Condvar, Mutex};
+use std::time::{Duration, Instant};
+
+const P: &str = "C17";
+
+thread_local! {
+    static TID: Cell<Option<usize>> = const { Cell::new(None) };
+    /// per-thread yield handler: lets several independent scheduled runs proceed in parallel in one process
+    static HANDLER: std::cell::RefCell<Option<Arc<dyn Fn(&'static str) + Send + Sync>>> = const { std::cell::RefCell::new(None) };
+}
+
+/// install (once) the process-global callback that dispatches to the calling thread's handler
+fn install_dispatch() {
+    static ONCE: std::sync::Once = std::sync::Once::new();
+    ONCE.call_once(|| heathcliff::verif::set_yield_callback(Some(Arc::new(|site| {
+        let h = HANDLER.with(|h| h.borrow().clone());
+        if let Some(h) = h { h(site); }
+    }))));
+}
+
+#[derive(Clone, Debug, PartialEq)]
+enum St { NotStarted, Parked(&'static str), Running, Finished }
+
+struct Shared { st: Vec<St>, turn: Option<usize>, observations: Vec<(usize, &'static str, usize)> }
+
+pub struct Sched { inner: Mutex<Shared>, cv: Condvar, observer: Mutex<Option<Box<dyn Fn() -> usize + Send + Sync>>> }
+
+impl Sched {
+    fn new(n: usize) -> Arc<Sched> { Arc::new(Sched { inner: Mutex::new(Shared { st: vec![St::NotStarted; n], turn: None, observations: vec![] }), cv: Condvar::new(), observer: Mutex::new(None) }) }
+    /// called from the library's yield points (and once at thread start)
+    fn yield_here(&self, site: &'static str) {
+        let Some(tid) = TID.with(|t| t.get()) else { return };
+        // observe the cache through its own lock: this thread holds no lock here, the others are parked
+        let obs = self.observer.lock().unwrap().as_ref().map(|f| f());
+        let mut g = self.inner.lock().unwrap();
+        if let Some(o) = obs { g.observations.push((tid, site, o)); }
+        g.st[tid] = St::Parked(site);
+        g.turn = None;
+        self.cv.notify_all();
+        while g.turn != Some(tid) { g = self.cv.wait(g).unwrap(); }
+        g.st[tid] = St::Running;
+    }
+    fn finish(&self, tid: usize) {
+        let mut g = self.inner.lock().unwrap();
+        g.st[tid] = St::Finished; g.turn = None;
+        self.cv.notify_all();
+    }
+}
+
+pub struct RunOutcome { pub trace: Vec<(usize, &'static str)>, pub enabled_counts: Vec<usize>, pub deadlock: bool, pub panics: Vec<(usize, String)>, pub observations: Vec<(usize, &'static str, usize)> }
+
+
+/// Run `bodies` (one per thread) under the scheduler; `choose(step, enabled)` picks the index into `enabled`.
+pub fn run_scheduled(bodies: Vec<Box<dyn FnOnce() + Send>>, observer: Option<Box<dyn Fn() -> usize + Send + Sync>>, mut choose: impl FnMut(usize, &[usize]) -> usize) -> RunOutcome {
+    let n = bodies.len();
+    let sched = Sched::new(n);
+    *sched.observer.lock().unwrap() = observer;
+    install_dispatch();
+    let panics = Arc::new(Mutex::new(vec![]));
+    let mut handles = vec![];
+    for (tid, body) in bodies.into_iter().enumerate() {
+        let (s, pn) = (sched.clone(), panics.clone());
+        handles.push(std::thread::spawn(move || {
+            TID.with(|t| t.set(Some(tid)));
+            let s3 = s.clone();
+            HANDLER.with(|h| *h.borrow_mut() = Some(Arc::new(move |site| s3.yield_here(site))));
+            s.yield_here("start");
+            if let Err(p) = lib(body) { pn.lock().unwrap().push((tid, p.0)); }
+            HANDLER.with(|h| *h.borrow_mut() = None);
+            TID.with(|t| t.set(None));
+            s.finish(tid);
+        }));
+    }
+    let mut trace = vec![]; let mut counts = vec![]; let mut deadlock = false;
+    let mut step = 0usize;
+    loop {
+        // wait until nobody is running
+        let mut g = sched.inner.lock().unwrap();
+        let t0 = Instant::now();
+        loop {
+            let busy = g.turn.is_some() || g.st.iter().any(|s| matches!(s, St::Running | St::NotStarted));
+            if !busy { break; }
+            let (g2, to) = sched.cv.wait_timeout(g, Duration::from_millis(200)).unwrap();
+            g = g2;
+            if to.timed_out() && t0.elapsed() > Duration::from_secs(20) { deadlock = true; break; }
+        }
+        if deadlock { break; }
+        let enabled: Vec<usize> = (0..n).filter(|&i| matches!(g.st[i], St::Parked(_))).collect();
+        if enabled.is_empty() { break; }
+        let k = choose(step, &enabled).min(enabled.len() - 1);
+        let pick = enabled[k];
+        let site = if let St::Parked(s) = &g.st[pick] { *s } else { "?" };
+        trace.push((pick, site)); counts.push(enabled.len());
+        g.turn = Some(pick);
+        sched.cv.notify_all();
+        drop(g);
+        step += 1;
+    }
+    if !deadlock { for h in handles { let _ = h.join(); } }
+    let observations = std::mem::take(&mut sched.inner.lock().unwrap().observations);
+    let panics = std::mem::take(&mut *panics.lock().unwrap());
+    RunOutcome { trace, enabled_counts: counts, deadlock, panics, observations }
+}
+
+/// Stateless DFS over scheduler choices: returns the next choice path, or None when exhausted.
+fn next_path(path: &mut Vec<usize>, counts: &[usize]) -> bool {
+    // path[i] = choice taken at step i (padded with 0 beyond its length); counts[i] = enabled at step i
+    let mut full: Vec<usize> = (0..counts.len()).map(|i| *path.get(i).unwrap_or(&0)).collect();
+    while let Some(last) = full.len().checked_sub(1) {
+        if full[last] + 1 < counts[last] { full[last] += 1; *path = full; return true; }
+        full.pop();
+    }
+    false
+}
+
+struct Obs<'a> { cfg: &'a Cfg, grp: &'a str, case: u64 }
+fn viol(o: &Obs, rep: &mut Report, op: &str, class: &str, kind: &str, detail: String, extra: serde_json::Value) {
+    rep.violation(&format!("{}|{}|{}|{}", P, op, class, kind), detail, replay_json(o.cfg, o.grp, o.case, extra));
+}
+
+fn tiny_spec(scheme: SchemeType, n: usize) -> Spec {
+    let mut r = Rng::new(7);
+    // CKKS (rotation scenarios): one data prime + special prime keeps the number of hooked yield points per
+    // rotation at 6, so that all 2-thread interleavings can be enumerated
+    let qs = coeff_primes(n, if scheme == SchemeType::CKKS { &[40, 41] } else { &[40, 40, 41] }, &mut r).expect("primes");
+    let t = if scheme == SchemeType::CKKS { 0 } else { ntt_primes_up(n, 8, 1)[0] };
+    Spec { scheme, n, qs, t, special_flag: false, expand: true, family: "c17".into() }
+}
+
+/// ciphertext of the given size (product of size-1 fresh ciphertexts)
+fn ct_of_size(kit: &Kit, size: usize, rng: &mut Rng) -> Ciphertext {
+    let n = kit.n(); let t = kit.t();
+    let fresh = |rng: &mut Rng| { let c: Vec<u64> = (0..n).map(|_| rng.below(t.min(4))).collect(); kit.enc.encrypt_new(&kit.plain_from_coeffs(&c)) };
+    let mut ct = fresh(rng);
+    for _ in 2..size { let f = fresh(rng); ct = kit.eval.multiply_new(&ct, &f); }
+    ct
+}
+
+type Body = Box<dyn FnOnce() + Send>;
+
+/// One scenario instance: builds fresh shared objects, returns thread bodies, a cache observer, and a post-check
+struct Instance { bodies: Vec<Body>, observer: Option<Box<dyn Fn() -> usize + Send + Sync>>, check: Box<dyn FnOnce(&RunOutcome) -> Vec<(String, String)>>, max_requested: Option<usize> }
+
+fn decryptor_instance(kit: &Arc<Kit>, cts: &Arc<Vec<Ciphertext>>, expected: &Arc<Vec<Vec<u64>>>) -> Instance {
+    let dec = Arc::new(Decryptor::new(kit.ctx.clone(), kit.sk.clone()));
+    let results: Arc<Mutex<Vec<Option<Vec<u64>>>>> = Arc::new(Mutex::new(vec![None; cts.len()]));
+    let mut bodies: Vec<Body> = vec![];
+    for i in 0..cts.len() {
+        let (d, c, r, n) = (dec.clone(), cts.clone(), results.clone(), kit.n());
+        bodies.push(Box::new(move || { let p = d.decrypt_new(&c[i]); r.lock().unwrap()[i] = Some(plain_coeffs(&p, n)); }));
+    }
+    let d2 = dec.clone();
+    let (exp, res, d3) = (expected.clone(), results.clone(), dec.clone());
+    let maxp = cts.iter().map(|c| c.size() - 1).max().unwrap();
+    Instance { bodies, observer: Some(Box::new(move || d2.verif_key_powers())), max_requested: Some(maxp),
+        check: Box::new(move |_out| {
+            let mut v = vec![];
+            let r = res.lock().unwrap();
+            for i in 0..exp.len() { match &r[i] { Some(x) if *x == exp[i] => {}, Some(_) => v.push(("decrypt|value".to_string(), format!("thread {} decrypted to a different plaintext than the sequential run", i))), None => v.push(("decrypt|no_result".to_string(), format!("thread {} produced no result", i))) } }
+            if d3.verif_key_powers() != maxp.max(1) { v.push(("cache|final_length".to_string(), format!("cache holds {} key powers at quiescence, expected {}", d3.verif_key_powers(), maxp.max(1)))); }
+            v
+        }) }
+}
+
+fn keygen_instance(kit: &Arc<Kit>, reqs: &[usize], reference_array: &Arc<Vec<u64>>, product: &Arc<Ciphertext>, product_plain: &Arc<Vec<u64>>) -> Instance {
+    let kg = Arc::new(KeyGenerator::from_sk(kit.ctx.clone(), kit.sk.clone()));
+    let rlks: Arc<Mutex<Vec<RelinKeys>>> = Arc::new(Mutex::new(vec![]));
+    let gks: Arc<Mutex<Vec<GaloisKeys>>> = Arc::new(Mutex::new(vec![]));
+    let mut bodies: Vec<Body> = vec![];
+    for (i, &r) in reqs.iter().enumerate() {
+        let (k, rl, gk) = (kg.clone(), rlks.clone(), gks.clone());
+        bodies.push(Box::new(move || {
+            match r {
+                0 => { let g = k.create_galois_keys_from_elts(&[3], false); gk.lock().unwrap().push(g); }
+                2 if i % 2 == 0 => { let x = k.create_relin_keys(false); rl.lock().unwrap().push(x); }
+                p => { k.verif_compute_powers(p); }
+            }
+        }));
+    }
+    let k2 = kg.clone();
+    let maxp = reqs.iter().copied().max().unwrap().max(1);
+    let (k3, refa, kit2, prod, pp) = (kg.clone(), reference_array.clone(), kit.clone(), product.clone(), product_plain.clone());
+    Instance { bodies, observer: Some(Box::new(move || k2.verif_key_powers())), max_requested: Some(maxp),
+        check: Box::new(move |_out| {
+            let mut v = vec![];
+            let arr = k3.verif_key_array();
+            let d = kit2.n() * kit2.key_qs().len();
+            if arr.len() != maxp * d { v.push(("cache|final_length".to_string(), format!("key generator cache holds {} powers, expected {}", arr.len() / d, maxp))); }
+            if arr.len() <= refa.len() && arr[..] != refa[..arr.len()] { v.push(("cache|content".to_string(), "cached secret key powers differ from the sequentially computed ones".to_string())); }
+            for rk in rlks.lock().unwrap().iter() {
+                if !rk.is_valid_for(&kit2.ctx) { v.push(("create_relin_keys|invalid".to_string(), "relinearization keys generated concurrently are not valid".to_string())); continue; }
+                let r = kit2.eval.relinearize_new(&prod, rk);
+                if plain_coeffs(&kit2.dec.decrypt_new(&r), kit2.n()) != *pp { v.push(("create_relin_keys|value".to_string(), "relinearization keys generated concurrently do not relinearize correctly".to_string())); }
+            }
+            for gk in gks.lock().unwrap().iter() { if !gk.is_valid_for(&kit2.ctx) { v.push(("create_galois_keys|invalid".to_string(), "Galois keys generated concurrently are not valid".to_string())); } }
+            v
+        }) }
+}
+
+fn rotation_instance(spec: &Spec, sk: &SecretKey, elts: &[usize], pk_ct: &Arc<Ciphertext>, gk_src: &Arc<GaloisKeys>, expected: &Arc<Vec<Ciphertext>>) -> Instance {
+    // a fresh context => cold permutation-table cache; keys and ciphertext are plain data valid for any context with the same parameters
+    let ctx = spec.context().expect("context");
+    let eval = Arc::new(Evaluator::new(ctx.clone()));
+    let _ = sk;
+    let results: Arc<Mutex<Vec<Option<Ciphertext>>>> = Arc::new(Mutex::new(vec![None; elts.len()]));
+    let mut bodies: Vec<Body> = vec![];
+    for (i, &g) in elts.iter().enumerate() {
+        let (e, c, k, r) = (eval.clone(), pk_ct.clone(), gk_src.clone(), results.clone());
+        bodies.push(Box::new(move || { let x = e.apply_galois_new(&c, g, &k); r.lock().unwrap()[i] = Some(x); }));
+    }
+    let c2 = ctx.clone();
+    let (exp, res, c3, distinct) = (expected.clone(), results.clone(), ctx.clone(), elts.iter().collect::<HashSet<_>>().len());
+    Instance { bodies, observer: Some(Box::new(move || c2.key_context_data().unwrap().verif_galois_tool().verif_tables_filled())), max_requested: Some(distinct),
+        check: Box::new(move |_out| {
+            let mut v = vec![];
+            let r = res.lock().unwrap();
+            for i in 0..exp.len() { match &r[i] { Some(x) if same_ct(x, &exp[i]) => {}, Some(_) => v.push(("apply_galois|value".to_string(), format!("thread {} rotation result differs from the sequential bytes", i))), None => v.push(("apply_galois|no_result".to_string(), format!("thread {} produced no result", i))) } }
+            let filled = c3.key_context_data().unwrap().verif_galois_tool().verif_tables_filled();
+            if filled != distinct { v.push(("cache|final_length".to_string(), format!("{} permutation tables cached at quiescence, expected {}", filled, distinct))); }
+            v
+        }) }
+}
+
+/// checks common to every execution: no panic, no deadlock, per-thread monotone cache observations
+fn common_checks(out: &RunOutcome, max_requested: Option<usize>) -> Vec<(String, String)> {
+    let mut v = vec![];
+    if out.deadlock { v.push(("schedule|deadlock".to_string(), format!("no progress for 20 s after trace {:?}", out.trace))); }
+    for (tid, msg) in &out.panics { v.push((format!("thread|panic"), format!("thread {} panicked: {}", tid, msg))); }
+    // the cache only grows: globally in scheduler mode (observations are totally ordered), hence also per thread
+    let mut last = 0usize;
+    for (tid, site, len) in &out.observations {
+        if *len < last { v.push(("cache|shrunk".to_string(), format!("cache length went from {} to {} (seen by thread {} at {})", last, len, tid, site))); }
+        last = *len;
+        if let Some(m) = max_requested { if *len > m.max(1) { v.push(("cache|overgrown".to_string(), format!("cache length {} exceeds the maximum requested {}", len, m))); } }
+    }
+    v
+}
+
+struct Scenario { name: &'static str, threads: usize, make: Box<dyn Fn() -> Instance + Sync> }
+
+fn scenarios(rng: &mut Rng) -> Vec<Scenario> {
+    let mut out = vec![];
+    for scheme in [SchemeType::BFV, SchemeType::CKKS] {
+        let spec = tiny_spec(scheme, 8);
+        let kit = Arc::new(Kit::new(&spec).expect("kit"));
+        if scheme == SchemeType::BFV {
+            // shared decryptor, racing requests for different key powers
+            for (name, sizes) in [("decryptor_2_3", vec![2usize, 3]), ("decryptor_3_5", vec![3, 5]), ("decryptor_3_3", vec![3, 3]), ("decryptor_2_3_5", vec![2, 3, 5]), ("decryptor_5_3_2_4", vec![5, 3, 2, 4])] {
+                let cts: Arc<Vec<Ciphertext>> = Arc::new(sizes.iter().map(|&s| ct_of_size(&kit, s, rng)).collect());
+                let seq = Decryptor::new(kit.ctx.clone(), kit.sk.clone());
+                let expected: Arc<Vec<Vec<u64>>> = Arc::new(cts.iter().map(|c| plain_coeffs(&seq.decrypt_new(c), kit.n())).collect());
+                let k = kit.clone();
+                out.push(Scenario { name, threads: sizes.len(), make: Box::new(move || decryptor_instance(&k, &cts, &expected)) });
+            }
+            // shared key generator: relin keys (power 2), Galois keys (0 = no power), explicit powers
+            let seqkg = KeyGenerator::from_sk(kit.ctx.clone(), kit.sk.clone());
+            seqkg.verif_compute_powers(4);
+            let reference: Arc<Vec<u64>> = Arc::new(seqkg.verif_key_array());
+            let a = ct_of_size(&kit, 2, rng); let b = ct_of_size(&kit, 2, rng);
+            let prod = Arc::new(kit.eval.multiply_new(&a, &b));
+            let pp = Arc::new(plain_coeffs(&kit.dec.decrypt_new(&prod), kit.n()));
+            for (name, reqs) in [("keygen_relin_galois", vec![2usize, 0]), ("keygen_powers_2_3", vec![2, 3]), ("keygen_powers_3_4", vec![3, 4]), ("keygen_powers_4_2_3", vec![4, 2, 3]), ("keygen_relin_relin_3", vec![2, 3, 2])] {
+                let (k, r, p, q) = (kit.clone(), reference.clone(), prod.clone(), pp.clone());
+                let n = reqs.len();
+                out.push(Scenario { name, threads: n, make: Box::new(move || keygen_instance(&k, &reqs, &r, &p, &q)) });
+            }
+        }
+        // shared evaluator/context: rotations on a cold permutation-table cache (NTT-form schemes use the cache: CKKS)
+        if scheme == SchemeType::CKKS {
+            let enc = kit.ckks.as_ref().unwrap();
+            let vals: Vec<C64> = (0..kit.n() / 2).map(|j| C64::new(j as f64, 1.0)).collect();
+            let ct = Arc::new(kit.enc.encrypt_new(&enc.encode_c64_array_new(&vals, None, 2f64.powi(20))));
+            let gk = Arc::new(kit.keygen.create_galois_keys_from_elts(&[3, 5, 9, 15], false));
+            for (name, elts) in [("rotate_same_elt", vec![3usize, 3]), ("rotate_diff_elts", vec![3, 5]), ("rotate_3_threads", vec![3, 5, 3]), ("rotate_4_threads", vec![3, 5, 9, 15])] {
+                let seq_eval = Evaluator::new(spec.context().unwrap());
+                let expected: Arc<Vec<Ciphertext>> = Arc::new(elts.iter().map(|&g| seq_eval.apply_galois_new(&ct, g, &gk)).collect());
+                let (s, sk, c, g) = (spec.clone(), kit.sk.clone(), ct.clone(), gk.clone());
+                let n = elts.len();
+                out.push(Scenario { name, threads: n, make: Box::new(move || rotation_instance(&s, &sk, &elts, &c, &g, &expected)) });
+            }
+        }
+    }
+    out
+}
+
+fn report(o: &Obs, rep: &mut Report, scen: &str, mode: &str, problems: Vec<(String, String)>, trace: &[(usize, &'static str)]) {
+    for (sig, detail) in problems {
+        let (op, kind) = sig.split_once('|').unwrap_or((&sig, "value"));
+        viol(o, rep, op, &format!("{}|{}", scen, mode), kind, format!("{} ; schedule {:?}", detail, trace), json!({"scenario": scen, "mode": mode, "schedule": trace.iter().map(|(t, s)| format!("{}@{}", t, s)).collect::<Vec<_>>()}));
+    }
+}
+
+fn fnv_trace(t: &[(usize, &'static str)]) -> u64 { let mut h = 0xcbf29ce484222325u64; for (a, s) in t { h ^= *a as u64 + 1; h = h.wrapping_mul(0x100000001b3); for b in s.bytes() { h ^= b as u64; h = h.wrapping_mul(0x100000001b3); } } h }
+
+/// (A) controlled schedules (scenarios run in parallel; each scheduled run serialises its own threads)
+fn controlled(cfg: &Cfg, rep: &mut Report) {
+    let mut rng = Rng::new(cfg.seed ^ 0xC17);
+    let scens = scenarios(&mut rng);
+    if let Some((g, _)) = &cfg.only_case { if g != "schedules" { return; } }
+    let seeds: Vec<u64> = scens.iter().map(|_| rng.u64()).collect();
+    let merged = Mutex::new(Report::new());
+    std::thread::scope(|scope| {
+        for (si, sc) in scens.iter().enumerate() {
+            let merged = &merged; let seed = seeds[si];
+            scope.spawn(move || {
+                let mut local = Report::new();
+                let rep = &mut local;
+                let mut rng = Rng::new(seed);
+                let o = Obs { cfg, grp: "schedules", case: si as u64 };
+                let budget = if sc.threads == 2 { cfg.pick(4000, 200000) } else { cfg.pick(1500, 20000) };
+                let mut distinct: HashSet<u64> = HashSet::new();
+                let mut path: Vec<usize> = vec![];
+                let mut executed = 0usize; let mut exhausted = false;
+                let mut sample_trace = None;
+                loop {
+                    let inst = (sc.make)();
+                    let p = path.clone();
+                    let out = run_scheduled(inst.bodies, inst.observer, |step, _en| *p.get(step).unwrap_or(&0));
+                    executed += 1; rep.evals(1);
+                    distinct.insert(fnv_trace(&out.trace));
+                    let mut problems = common_checks(&out, inst.max_requested);
+                    if !out.deadlock { problems.extend((inst.check)(&out)); }
+                    if sample_trace.is_none() { sample_trace = Some(out.trace.clone()); }
+                    report(&o, rep, sc.name, "dfs", problems, &out.trace);
+                    if out.deadlock { break; }
+                    if !next_path(&mut path, &out.enabled_counts) { exhausted = true; break; }
+                    if executed >= budget { break; }
+                }
+                let mut random_runs = 0;
+                if !exhausted {
+                    for _ in 0..cfg.pick(800, 10000) {
+                        let inst = (sc.make)();
+                        let mut r2 = Rng::new(rng.u64());
+                        let out = run_scheduled(inst.bodies, inst.observer, |_s, en| r2.usize_below(en.len()));
+                        random_runs += 1; rep.evals(1);
+                        distinct.insert(fnv_trace(&out.trace));
+                        let mut problems = common_checks(&out, inst.max_requested);
+                        if !out.deadlock { problems.extend((inst.check)(&out)); }
+                        report(&o, rep, sc.name, "random", problems, &out.trace);
+                        if out.deadlock { break; }
+                    }
+                }
+                if std::env::var("HV_C17_DEBUG").is_ok() { eprintln!("scenario {} threads {} executed {} random {} distinct {} exhausted {}", sc.name, sc.threads, executed, random_runs, distinct.len(), exhausted); }
+                rep.count_n("distinct_schedules", sc.name, distinct.len() as u64);
+                rep.count_n("executions", sc.name, (executed + random_runs) as u64);
+                rep.count("schedule_space_exhausted", &format!("{}={}", sc.name, exhausted));
+                for h in distinct.iter().take(4000) { rep.distinct.insert(*h); }
+                if let Some(t) = sample_trace { rep.sample(json!({"scenario": sc.name, "threads": sc.threads, "first_schedule": t.iter().map(|(t, s)| format!("T{}@{}", t, s)).collect::<Vec<_>>(), "distinct_schedules": distinct.len(), "exhausted": exhausted})); }
+                merged.lock().unwrap().merge(local);
+            });
+        }
+    });
+    rep.merge(merged.into_inner().unwrap());
+}
+
+/// (B) stress with real parallelism and micro-delays at the hook sites (scenarios in parallel)
+pub fn stress(cfg: &Cfg, rep: &mut Report, iterations: usize) {
+    install_dispatch();
+    let mut rng = Rng::new(cfg.seed ^ 0x57E55);
+    let scens = scenarios(&mut rng);
+    let seeds: Vec<u64> = scens.iter().map(|_| rng.u64()).collect();
+    let merged = Mutex::new(Report::new());
+    let per = (iterations / scens.len()).max(1);
+    std::thread::scope(|scope| {
+        for (si, sc) in scens.iter().enumerate() {
+            let merged = &merged; let seed0 = seeds[si];
+            scope.spawn(move || {
+                let mut local = Report::new();
+                let rep = &mut local;
+                let mut rng = Rng::new(seed0);
+                let o = Obs { cfg, grp: "stress", case: si as u64 };
+                let mut hook_orders: HashSet<u64> = HashSet::new();
+                for _it in 0..per {
+                    let inst = (sc.make)();
+                    let order: Arc<Mutex<Vec<(usize, &'static str)>>> = Arc::new(Mutex::new(vec![]));
+                    let obs_log: Arc<Mutex<Vec<(usize, &'static str, usize)>>> = Arc::new(Mutex::new(vec![]));
+                    let observer = inst.observer.map(Arc::new);
+                    let seed = rng.u64();
+                    let ctr = Arc::new(AtomicU64::new(0));
+                    let (ord2, log2, obs2) = (order.clone(), obs_log.clone(), observer.clone());
+                    let handler: Arc<dyn Fn(&'static str) + Send + Sync> = Arc::new(move |site| {
+                        let Some(tid) = TID.with(|t| t.get()) else { return };
+                        let k = ctr.fetch_add(1, Ordering::Relaxed);
+                        let mut r = Rng::derive(seed, tid as u64, k);
+                        match r.below(6) { 0 => std::thread::yield_now(), 1 => { for _ in 0..r.below(2000) { std::hint::spin_loop(); } } 2 => std::thread::sleep(Duration::from_micros(r.range(1, 50))), _ => {} }
+                        if let Some(f) = &obs2 { let l = f(); log2.lock().unwrap().push((tid, site, l)); }
+                        ord2.lock().unwrap().push((tid, site));
+                    });
+                    let nthreads = inst.bodies.len();
+                    let barrier = Arc::new(std::sync::Barrier::new(nthreads));
+                    let panics = Arc::new(Mutex::new(vec![]));
+                    let done = Arc::new((Mutex::new(0usize), Condvar::new()));
+                    let mut hs = vec![];
+                    for (tid, body) in inst.bodies.into_iter().enumerate() {
+                        let (b, pn, dn, h) = (barrier.clone(), panics.clone(), done.clone(), handler.clone());
+                        hs.push(std::thread::spawn(move || {
+                            TID.with(|t| t.set(Some(tid)));
+                            HANDLER.with(|x| *x.borrow_mut() = Some(h));
+                            b.wait();
+                            if let Err(p) = lib(body) { pn.lock().unwrap().push((tid, p.0)); }
+                            HANDLER.with(|x| *x.borrow_mut() = None);
+                            let mut g = dn.0.lock().unwrap(); *g += 1; dn.1.notify_all();
+                        }));
+                    }
+                    // deadlock watchdog (bounded progress)
+                    let t0 = Instant::now();
+                    let mut deadlock = false;
+                    { let mut g = done.0.lock().unwrap(); while *g < nthreads { let (g2, _) = done.1.wait_timeout(g, Duration::from_millis(500)).unwrap(); g = g2; if t0.elapsed() > Duration::from_secs(30) { deadlock = true; break; } } }
+                    if !deadlock { for h in hs { let _ = h.join(); } }
+                    let trace = order.lock().unwrap().clone();
+                    hook_orders.insert(fnv_trace(&trace));
+                    // per-thread monotonicity (real parallelism: only each single observer's view is ordered)
+                    let mut problems = vec![];
+                    let log = obs_log.lock().unwrap().clone();
+                    for tid in 0..nthreads { let mut last = 0; for (t, site, l) in &log { if *t == tid { if *l < last { problems.push(("cache|shrunk".to_string(), format!("thread {} saw the cache shrink from {} to {} at {}", tid, last, l, site))); } last = *l; } } }
+                    if deadlock { problems.push(("stress|deadlock".to_string(), "threads did not finish within 30 s".to_string())); }
+                    for (tid, msg) in panics.lock().unwrap().iter() { problems.push(("thread|panic".to_string(), format!("thread {} panicked: {}", tid, msg))); }
+                    let out = RunOutcome { trace: trace.clone(), enabled_counts: vec![], deadlock, panics: vec![], observations: vec![] };
+                    if !deadlock { problems.extend((inst.check)(&out)); }
+                    report(&o, rep, sc.name, "stress", problems, &trace[..trace.len().min(24)]);
+                    rep.evals(1);
+                    if deadlock { break; }
+                }
+                rep.count_n("stress_iterations", sc.name, per as u64);
+                rep.count_n("stress_distinct_hook_orders", sc.name, hook_orders.len() as u64);
+                for h in hook_orders.iter().take(4000) { rep.distinct.insert(*h ^ 0x5); }
+                merged.lock().unwrap().merge(local);
+            });
+        }
+    });
+    rep.merge(merged.into_inner().unwrap());
+}
+
+/// (C) sanitizer subprocesses: a TSan build of this binary running the stress part only
+fn sanitizer_pass(cfg: &Cfg, rep: &mut Report) {
+    let o = Obs { cfg, grp: "tsan", case: 0 };
+    let vd = std::env::var("VERIF_DIR").unwrap_or_else(|_| "/verif".into());
+    let bin = std::env::var("HV_TSAN_BIN").unwrap_or_else(|_| format!("{}/target-tsan/x86_64-unknown-linux-gnu/release/hv", vd));
+    if !std::path::Path::new(&bin).exists() { rep.note("ThreadSanitizer build not present: sanitizer pass skipped (run ./check or setup.sh to build it)"); rep.count("sanitizers", "tsan_skipped_no_binary"); return; }
+    let logdir = format!("{}/target-tsan/logs", vd);
+    let _ = std::fs::remove_dir_all(&logdir); let _ = std::fs::create_dir_all(&logdir);
+    let iters = cfg.pick(1500, 20000);
+    let out = std::process::Command::new(&bin).arg("C17").env("HV_C17_MODE", "stress-only").env("HV_C17_ITERS", iters.to_string())
+        .env("VERIF_SEED", cfg.seed.to_string()).env("VERIF_DIR", format!("{}/target-tsan/out", vd))
+        .env("TSAN_OPTIONS", format!("halt_on_error=0 exitcode=66 log_path={}/tsan report_signal_unsafe=0", logdir)).output();
+    let Ok(out) = out else { rep.note("could not start the ThreadSanitizer binary"); rep.count("sanitizers", "tsan_failed_to_start"); return; };
+    let stdout = String::from_utf8_lossy(&out.stdout).to_string();
+    // collect reports
+    let mut reports: Vec<String> = vec![];
+    if let Ok(rd) = std::fs::read_dir(&logdir) { for e in rd.flatten() { if let Ok(s) = std::fs::read_to_string(e.path()) { for block in s.split("==================").filter(|b| b.contains("WARNING: ThreadSanitizer")) { reports.push(block.to_string()); } } } }
+    let mut seen = HashSet::new();
+    for r in &reports {
+        // dedupe by the first two frames inside the library or the harness
+        let frames: Vec<&str> = r.lines().filter(|l| l.contains("/repo/src/") || l.contains("heathcliff")).take(2).collect();
+        let key = frames.iter().map(|f| f.split(" in ").nth(1).unwrap_or(f).split(" /").next().unwrap_or("").trim().to_string()).collect::<Vec<_>>().join(" <-> ");
+        if seen.insert(key.clone()) {
+            let kind = r.lines().find(|l| l.contains("WARNING: ThreadSanitizer")).unwrap_or("").replace("WARNING: ThreadSanitizer: ", "");
+            viol(&o, rep, "tsan", &key.chars().take(120).collect::<String>(), "data_race", format!("ThreadSanitizer: {} ; first frames: {}", kind.trim(), key), json!({"report": r.chars().take(3000).collect::<String>()}));
+        }
+    }
+    rep.count_n("sanitizers", "tsan_reports", reports.len() as u64);
+    rep.count_n("sanitizers", "tsan_stress_iterations", iters as u64);
+    rep.count("sanitizers", &format!("tsan_exit_code={}", out.status.code().unwrap_or(-1)));
+    // the TSan child runs the same oracles: propagate its violations
+    for l in stdout.lines().filter(|l| l.starts_with("  signature: ")) { let sig = l.trim_start_matches("  signature: "); viol(&o, rep, "tsan_build", &sig.replace('|', "/"), "value", format!("stress oracle failed inside the ThreadSanitizer build: {}", sig), json!({})); }
+    if !stdout.contains("SUMMARY property=C17") { rep.note("ThreadSanitizer child did not complete"); rep.count("sanitizers", "tsan_child_incomplete"); }
+    rep.evals(iters as u64);
+}
+
+fn miri_pass(cfg: &Cfg, rep: &mut Report) {
+    let o = Obs { cfg, grp: "miri", case: 0 };
+    let vd = std::env::var("VERIF_DIR").unwrap_or_else(|_| "/verif".into());
+    let script = format!("{}/tools/miri_c17.sh", vd);
+    if !std::path::Path::new(&script).exists() { rep.note("miri driver script missing"); return; }
+    let out = std::process::Command::new("bash").arg(&script).env("VERIF_SEED", cfg.seed.to_string()).output();
+    let Ok(out) = out else { rep.note("could not start miri"); return; };
+    let text = format!("{}{}", String::from_utf8_lossy(&out.stdout), String::from_utf8_lossy(&out.stderr));
+    let ub: Vec<&str> = text.lines().filter(|l| l.contains("Undefined Behavior") || l.contains("Data race detected")).collect();
+    rep.count_n("sanitizers", "miri_seeds_ok", text.matches("MIRI-SCENARIO-OK").count() as u64);
+    rep.count_n("sanitizers", "miri_ub_reports", ub.len() as u64);
+    for l in ub.iter().take(3) { viol(&o, rep, "miri", &l.chars().take(100).collect::<String>(), "undefined_behavior", format!("Miri: {}", l), json!({"log_tail": text.chars().rev().take(3000).collect::<String>().chars().rev().collect::<String>()})); }
+    if text.matches("MIRI-SCENARIO-OK").count() == 0 && ub.is_empty() { rep.note("miri produced no completed scenario (tool failure or timeout): inconclusive for the miri part"); rep.count("sanitizers", "miri_inconclusive"); }
+}
+
+/// tiny scenario for Miri (called via `hv C17MIRI`): two threads race on a fresh decryptor
+pub fn miri_scenario() -> i32 {
+    let spec = { let n = 4; Spec { scheme: SchemeType::BFV, n, qs: vec![1048609, 1048681], t: 17, special_flag: false, expand: false, family: "miri".into() } };
+    let kit = Arc::new(Kit::new(&spec).expect("kit"));
+    let mut rng = Rng::new(1);
+    let a = ct_of_size(&kit, 2, &mut rng); let b = ct_of_size(&kit, 3, &mut rng);
+    let seq = Decryptor::new(kit.ctx.clone(), kit.sk.clone());
+    let (ea, eb) = (plain_coeffs(&seq.decrypt_new(&a), 4), plain_coeffs(&seq.decrypt_new(&b), 4));
+    let dec = Arc::new(Decryptor::new(kit.ctx.clone(), kit.sk.clone()));
+    let (d1, d2) = (dec.clone(), dec.clone());
+    let h1 = std::thread::spawn(move || plain_coeffs(&d1.decrypt_new(&a), 4));
+    let h2 = std::thread::spawn(move || plain_coeffs(&d2.decrypt_new(&b), 4));
+    let (ra, rb) = (h1.join().unwrap(), h2.join().unwrap());
+    if ra == ea && rb == eb && dec.verif_key_powers() == 2 { println!("MIRI-SCENARIO-OK"); 0 } else { println!("MIRI-SCENARIO-MISMATCH"); 1 }
+}
+
+pub fn run(cfg: &Cfg, rep: &mut Report) -> PropMeta {
+    let mode = std::env::var("HV_C17_MODE").unwrap_or_default();
+    if mode == "stress-only" {
+        let iters: usize = std::env::var("HV_C17_ITERS").ok().and_then(|s| s.parse().ok()).unwrap_or(1000);
+        stress(cfg, rep, iters);
+    } else {
+        controlled(cfg, rep);
+        stress(cfg, rep, cfg.pick(6000, 150000));
+        sanitizer_pass(cfg, rep);
+        if !cfg.quick() { miri_pass(cfg, rep); }
+    }
+    PropMeta {
+        id: "C17", level: "exploration",
+        rule: "scenarios: one fresh shared Decryptor decrypting ciphertexts of sizes (2,3) (3,5) (3,3) (2,3,5) (5,3,2,4); one shared KeyGenerator with concurrent relin/Galois key generation and requests for key powers (2,3) (3,4) (4,2,3); one shared evaluator/context with concurrent Galois maps on a cold permutation-table cache (same / different elements, 2-4 threads). (A) every interleaving of the hooked yield points for 2 threads, bounded DFS + seeded random schedules for 3-4 threads; (B) real-parallel stress with random micro-delays at the hook sites; (C) the stress workload in a ThreadSanitizer build (thorough: a 2-thread scenario under Miri with several seeds). distinct = distinct schedules (hash of the release sequence) + distinct hook-order signatures seen under stress",
+        assumptions: vec!["yield points sit only where the library holds no lock, so serialising threads there cannot create interleavings the program cannot have".into(),
+            "deadlock is decided as bounded progress: no thread reaches a yield point or its end within 20 s (scheduler) / 30 s (stress)".into(),
+            "interleavings inside a lock phase are not enumerated; ThreadSanitizer / Miri cover data races there, not orderings".into(),
+            "Miri runs with alignment and stacked-borrows checks off (unrelated findings outside this property)".into()],
+        exhaustive: false, floor: 200,
+    }
 }
